@@ -131,6 +131,64 @@ func TestRace_MuxBroker(t *testing.T) {
 	}
 }
 
+// TestRace_MuxBrokerUnmatched: accepts that nobody dials (a dispense the host never connected, a callback id that was
+// never used) expire, all at about the same time, while matched pairs on other ids and dispenses go on.
+func TestRace_MuxBrokerUnmatched(t *testing.T) {
+	r := rand.New(rand.NewSource(seed()))
+	var rmu sync.Mutex
+	g := &grabRPC{}
+	c, _ := plugin.TestPluginRPCConn(t, map[string]plugin.Plugin{"g": g}, nil)
+	if _, err := c.Dispense("g"); err != nil {
+		t.Fatal(err)
+	}
+	defer c.Close()
+	hb, pb := g.cb[0], g.sb[0]
+	var wg sync.WaitGroup
+	for i := 0; i < 60; i++ {
+		id := uint32(5000 + i)
+		b := hb
+		if i%2 == 0 {
+			b = pb
+		}
+		wg.Add(1)
+		go func() { defer wg.Done(); jitter(r, &rmu); b.Accept(id) }() // returns with the timeout error after 5 s
+	}
+	stop := time.Now().Add(5600 * time.Millisecond)
+	for w := 0; w < 4; w++ {
+		w := w
+		wg.Add(1)
+		go func() {
+			defer wg.Done()
+			for k := 0; time.Now().Before(stop); k++ {
+				id := uint32(100000 + w*100000 + k)
+				ab, db := hb, pb
+				if k%2 == 0 {
+					ab, db = pb, hb
+				}
+				done := make(chan struct{})
+				go func() {
+					defer close(done)
+					if conn, err := ab.Accept(id); err == nil {
+						conn.Write([]byte("x"))
+						conn.Close()
+					}
+				}()
+				if conn, err := db.Dial(id); err == nil {
+					b := make([]byte, 1)
+					conn.Read(b)
+					conn.Close()
+				}
+				<-done
+				if k%16 == 0 {
+					c.Dispense("g")
+				}
+				time.Sleep(2 * time.Millisecond)
+			}
+		}()
+	}
+	wg.Wait()
+}
+
 type grabG struct {
 	plugin.NetRPCUnsupportedPlugin
 	mu     sync.Mutex
